@@ -561,7 +561,14 @@ class Ghost:
         dv = kwargs["val"]
         dom = z3.Array(name + ".dom", Val, z3.BoolSort())
         val = z3.Array(name + ".val", Val, Val)
-        m = MapV(KeySort(dk), dom, val, dk, dv, default_factory=kwargs.get("default"), ident=name)
+        default = kwargs.get("default")
+        like = kwargs.get("like")
+        if like is not None:
+            # arbitrary contents for a dict the real constructor made: keeps ITS default factory
+            if not isinstance(like, DictV):
+                raise OutsideSubset("vc.map(like=...) of something that is not a dict")
+            default = like.default_factory
+        m = MapV(KeySort(dk), dom, val, dk, dv, default_factory=default, ident=name)
         m.inv = kwargs.get("inv")
 
         def ex(model, m=m):
@@ -608,6 +615,14 @@ class Ghost:
         d = self.vc_lazy_dict([args[0], BuiltinFn("true", lambda I, a, k, n: True), args[1] if len(args) > 1 else kwargs.get("gen_key")], {}, node)
         return LazySetV(d)
 
+    def vc_fields(self, args, kwargs, node):
+        """vc.fields(obj): attribute name -> value of an instance, as a dict (frames: 'nothing
+        else of the object changed')"""
+        o = args[0]
+        if not isinstance(o, ObjV):
+            raise OutsideSubset("vc.fields of a non-instance")
+        return DictV([[k, v] for k, v in o.fields.items()])
+
     def vc_coro_info(self, args, kwargs, node):
         """vc.coro_info(c): (qualified name of the coroutine function, args, kwargs) of a
         coroutine object that has not run yet (symbolic hooks only)"""
@@ -624,7 +639,7 @@ class Ghost:
         """vc.copy(x): independent copy of a mutable harness value with equal contents"""
         v = args[0]
         if isinstance(v, MapV):
-            c = MapV(v.keysort, v.dom, v.val, v.desc_key, v.desc_val, v.default_factory, v.ident, touched=v.touched)
+            c = MapV(v.keysort, v.dom, v.val, v.desc_key, v.desc_val, kwargs.get("default", v.default_factory), v.ident, touched=v.touched)
             c.dom0, c.val0 = v.dom0, v.val0
             c.inv = v.inv
             return c
